@@ -118,7 +118,7 @@ def run(seed, tier, replay=None):
         # a call that modifies its argument in place corrupts the later curves
         shared = np.array(ns_int)
         for mn in (False, True):
-            if ws is None and finite:
+            if ws is None:
                 reqs.append(("emp.naive", f"{dl} {int(mn)} {C.ilist(ns_int)}")); meta.append((ci, "naive", d, mn, ns_int, inp, tol, shared))
                 reqs.append(("emp.u", f"{dl} {int(mn)} {C.ilist(ns_int)}")); meta.append((ci, "u", d, mn, ns_int, inp, tol, shared))
                 reqs.append(("emp.v", f"{dl} {int(mn)} {C.ilist(ns_int)}")); meta.append((ci, "v", d, mn, ns_int, inp, tol, shared))
